@@ -50,6 +50,13 @@ def self_attr_assigned_from(cls: ClassInfo, pred) -> Optional[str]:
     return None
 
 
+def sender_view(ctx: Ctx) -> FuncInfo:
+    """The UDP sender with its module-level helper functions spliced in; methods of the protocol classes stay calls."""
+    base = default_sender(ctx)
+    keep = [m.key for c in ctx.u.classes.values() if c.module is base.module for m in c.methods.values()]
+    return ctx.inlined(base, keep=keep)
+
+
 def is_self_attr(expr: ast.AST, attr: str) -> bool:
     return isinstance(expr, ast.Attribute) and expr.attr == attr and isinstance(expr.value, ast.Name) and expr.value.id == "self"
 
@@ -79,6 +86,8 @@ def endpoint_factory(ctx: Ctx, fn: FuncInfo):
         body = None
         if isinstance(fac, ast.Lambda) and not fac.args.args and isinstance(fac.body, ast.Call):
             body = fac.body
+        elif isinstance(fac, ast.Lambda) and not fac.args.args and isinstance(fac.body, ast.Name) and isinstance(ctx.defs(fn).single(fac.body.id), ast.Call):
+            body = ctx.defs(fn).single(fac.body.id)  # lambda: protocol  - an object built elsewhere in the sender (fresh per attempt or not: C13-R3 / C14-R3)
         elif isinstance(fac, ast.Call) and norm(fac.func).split(".")[-1] == "partial" and fac.args:
             body = ast.Call(fac.args[0], list(fac.args[1:]), list(fac.keywords))
         if body is not None:
@@ -98,11 +107,11 @@ def run(ctx: Ctx, rep: Report) -> None:
         "asyncio closes nothing by itself; close()/abort() on the DatagramTransport release the socket; connection_lost is only called for a transport that is already closed",
         "task cancellation is outside the property's outcome set (reported as information only)",
     ]
-    send = ctx.inlined(default_sender(ctx))  # one attempt may live in a helper (_exchange_once)
+    send = sender_view(ctx)  # one attempt may live in a helper (_exchange_once)
     rep.analysed["sender"] = send.key
     rep.analysed["sender_helpers_inlined"] = getattr(send, "inlined_helpers", 0)
     # protocol class: created by the factory given to create_datagram_endpoint
-    proto, factory_call, _ = endpoint_factory(ctx, send)
+    proto, factory_call, _ep_call = endpoint_factory(ctx, send)
     if proto is None or factory_call is None:
         raise AnalysisError("send_udp: protocol factory of create_datagram_endpoint not recognised")
     fut = self_attr_assigned_from(proto, lambda m, v: isinstance(v, ast.Call) and isinstance(v.func, ast.Attribute) and v.func.attr == "create_future")
@@ -135,7 +144,10 @@ def run(ctx: Ctx, rep: Report) -> None:
         for node in own_nodes(fn.node):
             if not isinstance(node, ast.Call) or not isinstance(node.func, ast.Attribute):
                 continue
-            direct = node.func.attr in ("close", "abort") and is_self_attr(node.func.value, tr_attr)
+            recv = node.func.value
+            if isinstance(recv, ast.Name) and ctx.defs(fn).single(recv.id) is not None:
+                recv = ctx.defs(fn).single(recv.id)  # transport = self.transport; transport.abort()
+            direct = node.func.attr in ("close", "abort") and is_self_attr(recv, tr_attr)
             wrapped = False
             if not direct and isinstance(node.func.value, ast.Name) and node.func.value.id == "self" and node.func.attr in proto.methods and proto.methods[node.func.attr] is not fn:
                 wrapped = releasing_method(proto.methods[node.func.attr], depth)
@@ -145,9 +157,17 @@ def run(ctx: Ctx, rep: Report) -> None:
                     out.append(n)
         return out
 
+    extra_views: List[FuncInfo] = []  # inlined views of protocol methods (their spliced locals are aliases too)
+
     def transport_env(expr: ast.expr) -> Optional[bool]:
         if is_self_attr(expr, tr_attr):
             return True
+        if isinstance(expr, ast.Name):
+            # a local alias of the transport attribute (in whichever method of the protocol it is defined)
+            for m_ in list(proto.methods.values()) + extra_views:
+                v_ = ctx.defs(m_).single(expr.id)
+                if v_ is not None and is_self_attr(v_, tr_attr):
+                    return True
         if isinstance(expr, ast.Compare) and len(expr.ops) == 1 and is_self_attr(expr.left, tr_attr) and isinstance(expr.comparators[0], ast.Constant) and expr.comparators[0].value is None:
             return isinstance(expr.ops[0], (ast.IsNot, ast.NotEq))
         if isinstance(expr, ast.Call) and norm(expr.func).endswith("isEnabledFor"):
@@ -171,10 +191,17 @@ def run(ctx: Ctx, rep: Report) -> None:
     # the coroutine awaiting the future
     waiter: Optional[FuncInfo] = None
     wait_call = None
-    for meth in proto.methods.values():
+    called_by_sender = {n.func.attr for n in own_nodes(send.node) if isinstance(n, ast.Call) and isinstance(n.func, ast.Attribute)}
+    cands = []
+    for meth0 in proto.methods.values():
+        meth = ctx.inlined(meth0)  # the wait may sit in a private helper coroutine of the protocol (_await_response)
         for node in own_nodes(meth.node):
             if isinstance(node, ast.Call) and "ext:asyncio.wait_for" in ctx.r.callee_names(meth, node) and node.args and is_self_attr(node.args[0], fut):
-                waiter, wait_call = meth, node
+                cands.append((meth, node))
+    cands.sort(key=lambda c: c[0].name in called_by_sender)  # the coroutine the sender awaits wins
+    if cands:
+        waiter, wait_call = cands[-1]
+        extra_views.append(waiter)
     if waiter is None or wait_call is None:
         raise AnalysisError("protocol: no coroutine awaits the future through asyncio.wait_for")
     from ..engine.cfg import enclosing_tries
@@ -206,7 +233,7 @@ def run(ctx: Ctx, rep: Report) -> None:
         def env(expr: ast.expr) -> Optional[bool]:
             if caught is not None and h.name and isinstance(expr, ast.Call) and isinstance(expr.func, ast.Name) and expr.func.id == "isinstance" and len(expr.args) == 2:
                 if isinstance(expr.args[0], ast.Name) and expr.args[0].id == h.name:
-                    return ctx.exc_matches(waiter, caught, expr.args[1])
+                    return ctx.exc_matches(waiter, caught, ctx.xexpand(waiter, expr.args[1], depth=1))  # a named tuple of exception classes is looked through
             return transport_env(expr)
 
         outs = simulate(wcfg, env, start=hn)
@@ -323,6 +350,14 @@ def run(ctx: Ctx, rep: Report) -> None:
     init = proto.methods.get("__init__")
     ok = bool(factory_call.args) and value_number(sdefs, factory_call.args[0]) == ("param", packet_param) and len(factory_call.args) == 1
     rep.check(ok, "C13-R3", send.site(factory_call), "every attempt's protocol object is given the caller's datagram unchanged", f"{norm(factory_call)}", key=f"{send.key}|datagram-per-attempt")
+    # ... and it is a new object for every attempt: its future is cancelled by the attempt's timeout, so a second
+    # attempt on the same object waits on a dead future (and the first attempt's socket is never released)
+    from ..engine.universe import ancestors as _anc
+
+    loops_around_ep = [a for a in _anc(_ep_call) if isinstance(a, (ast.While, ast.For))] if _ep_call is not None else []
+    synthetic = getattr(factory_call, "_parent", None) is None  # partial(Cls, ..) / a factory function: the constructor runs when the endpoint calls the factory
+    built_per_attempt = synthetic or any(isinstance(a, ast.Lambda) or (isinstance(a, (ast.FunctionDef, ast.AsyncFunctionDef)) and a is not send.node) for a in _anc(factory_call)) or not loops_around_ep or any(a in loops_around_ep for a in _anc(factory_call))
+    rep.check(built_per_attempt, "C13-R3", send.site(factory_call), "every attempt gets a protocol object (and future) of its own", "the protocol object is constructed once, outside the retry loop, and handed to every endpoint", key=f"{send.key}|protocol-shared-between-attempts")
     pk_attr = None
     if init is not None:
         for node in own_nodes(init.node):
